@@ -769,12 +769,17 @@ def validator_obligations(timeout_ms):
         r_src = re_to_z3(pat)
         r_ref = refs[name]
         x = z3.String("x")
-        acc_src = z3.And(z3.InRe(x, r_src), z3.Length(x) % 2 == 0) if even else z3.InRe(x, r_src)
+        if even:
+            # the parity guard as a regular constraint: length arithmetic next to a regex membership ends in `unknown`
+            anyc = z3.AllChar(z3.ReSort(z3.StringSort()))
+            r_src = z3.Intersect(r_src, z3.Star(z3.Concat(anyc, anyc)))
+        acc_src = z3.InRe(x, r_src)
         acc_ref = z3.InRe(x, r_ref)
         for direction, a, b in (("accepted-by-pyteal-but-not-RFC4648", acc_src, acc_ref), ("RFC4648-but-rejected-by-pyteal", acc_ref, acc_src)):
             s = z3.Solver()
             s.set("timeout", timeout_ms)
-            s.add(a, z3.Not(b))
+            one = _as_one_regex(z3.And(a, z3.Not(b)), x)       # emptiness of ONE regular expression
+            s.add(z3.InRe(x, one) if one is not None else z3.And(a, z3.Not(b)))
             t0 = time.time()
             r = str(s.check())
             ob = {"validator": name, "pattern": pat, "direction": direction, "result": r, "time": round(time.time() - t0, 3)}
